@@ -251,7 +251,9 @@ def check(ctx, facts, cfg):
         return x
 
     for cp in consumers:
-        cf = facts.fns[cp]
+        # private helpers of the same file (constructing / reconfiguring the inner codec) are analysed in place
+        cf = core.inlined_fn(facts, cp, lambda g, t, f0=facts.fns[cp]: (not g.reachable and not g.impl_trait and not g.in_trait and g.kind != 'Closure'
+                                                                        and g.file == f0.file and g.path != dec), tag='c09')
         cb = cf.body
         dcalls = [(b, t) for b, t in cb.calls() if t['callee'].get('path') == dec]
         okargs = dcalls and all([cb.canon_op(a) for a in t['args']] == [('param', 'original_count'), ('param', 'recovery_count')] for b, t in dcalls)
@@ -273,10 +275,11 @@ def check(ctx, facts, cfg):
                     if len(zero) == 1:
                         dsw.append((s, (s, t['otherwise']), (s, zero[0])))
         n_uses = 0
+        live0 = cb.reachable_from(0, removed_edges=cb.const_pruned_edges())     # M1: a helper inlined with a literal flag
         for b, t in cb.calls():
             k = t['callee'].get('key') or ''
             m = re.match(r'<rate::rate_(high|low)::(High|Low)Rate(En|De)coder<E> as rate::Rate(En|De)coder<E>>::(new|reset|validate)$', k)
-            if not m:
+            if not m or b not in live0:
                 continue
             n_uses += 1
             high = m.group(1) == 'high'
